@@ -237,8 +237,8 @@ Proof.
   - lia.
 Qed.
 
-(* ---- the iterator around next_bytes (WinconBytesIter::next, WinconBytes::extract_next: hand-modelled
-   plumbing, token-pinned by the translator) over the TRANSLATED next_bytes ---------------------- *)
+(* ---- the iterator around next_bytes (WinconBytesIter::next, WinconBytes::extract_next) written by hand over
+   the TRANSLATED next_bytes; gt_extract_next below is the same drive over the TRANSLATED glue ----- *)
 Fixpoint g_wincon_iter (fuel : nat) (bs : list N) (p : parser) (c : capture)
   : option (list (sstyle * list N) * parser * capture) :=
   match fuel with
@@ -296,6 +296,89 @@ Proof.
   rewrite translated_extract_next_is_model. destruct (extract_next ch p c) as [[[its p1] c1]|]; [|reflexivity].
   rewrite IH. reflexivity.
 Qed.
+
+(* ---- WinconBytes::{new, extract_next} and WinconBytesIter::next, TRANSLATED ------------------------------------
+   `extract_next` returns a struct that holds `&mut self.parser` and `&mut self.capture`: the value translation copies
+   the two fields into the iterator (after `self.capture.reset()`); while the iterator lives its fields ARE the fields of
+   the WinconBytes, so what the drained iterator leaves in them is the WinconBytes afterwards (copy-out: the setters). *)
+Lemma g_wb_new_eq : g_wb_new = mkWB parser_new capture_default.
+Proof. reflexivity. Qed.
+
+Lemma g_wb_extract_next_eq wb bs :
+  g_wb_extract_next wb bs =
+  match g_cap_reset (wb_capture wb) with
+  | Some c0 => Some (mkWB (wb_parser wb) c0, mkWBI bs (wb_parser wb) c0)
+  | None => None
+  end.
+Proof. unfold g_wb_extract_next. destruct (g_cap_reset (wb_capture wb)); reflexivity. Qed.
+
+Lemma g_wbi_next_eq it :
+  g_wbi_next it =
+  match g_next_bytes (wbi_bytes it) (wbi_parser it) (wbi_capture it) with
+  | Some (bs1, p1, c1, r) => Some (mkWBI bs1 p1 c1, r)
+  | None => None
+  end.
+Proof. unfold g_wbi_next. destruct (g_next_bytes _ _ _) as [[[[bs1 p1] c1] r]|]; reflexivity. Qed.
+
+(* `.collect()`: drain the translated `next` *)
+Fixpoint gt_wbi_drain (fuel : nat) (it : wbiter) : option (list (sstyle * list N) * wbiter) :=
+  match fuel with
+  | O => None
+  | S f =>
+      match g_wbi_next it with
+      | Some (it1, None) => Some ([], it1)
+      | Some (it1, Some x) =>
+          match gt_wbi_drain f it1 with
+          | Some (xs, it2) => Some (x :: xs, it2)
+          | None => None
+          end
+      | None => None
+      end
+  end.
+
+Definition gt_extract_next (bs : list N) (wb : wbytes) : option (list (sstyle * list N) * wbytes) :=
+  match g_wb_extract_next wb bs with
+  | Some (wb1, it) =>
+      match gt_wbi_drain (S (S (length bs))) it with
+      | Some (xs, it') => Some (xs, set_wb_capture (set_wb_parser wb1 (wbi_parser it')) (wbi_capture it'))
+      | None => None
+      end
+  | None => None
+  end.
+
+Lemma gt_wbi_drain_iter fuel : forall bs p c,
+  match gt_wbi_drain fuel (mkWBI bs p c) with
+  | Some (xs, it') => Some (xs, wbi_parser it', wbi_capture it')
+  | None => None
+  end = g_wincon_iter fuel bs p c.
+Proof.
+  induction fuel as [|f IH]; intros bs p c; cbn [gt_wbi_drain g_wincon_iter]; [reflexivity|].
+  rewrite g_wbi_next_eq. cbn [wbi_bytes wbi_parser wbi_capture].
+  destruct (g_next_bytes bs p c) as [[[[bs1 p1] c1] [x|]]|]; [|reflexivity|reflexivity].
+  rewrite <- IH. destruct (gt_wbi_drain f (mkWBI bs1 p1 c1)) as [[xs it2]|]; reflexivity.
+Qed.
+
+(* the drive over the translated functions is the drive [g_extract_next] the theorems above are about *)
+Theorem gt_extract_next_eq bs wb :
+  gt_extract_next bs wb =
+  match g_extract_next bs (wb_parser wb) (wb_capture wb) with
+  | Some (its, p, c) => Some (its, mkWB p c)
+  | None => None
+  end.
+Proof.
+  unfold gt_extract_next, g_extract_next. rewrite g_wb_extract_next_eq.
+  destruct (g_cap_reset (wb_capture wb)) as [c0|]; [|reflexivity].
+  rewrite <- gt_wbi_drain_iter.
+  destruct (gt_wbi_drain (S (S (length bs))) (mkWBI bs (wb_parser wb) c0)) as [[xs it']|]; reflexivity.
+Qed.
+
+Theorem translated_wb_extract_next_is_model bs :
+  gt_extract_next bs g_wb_new =
+  match extract_next bs parser_new capture_default with
+  | Some (its, p, c) => Some (its, mkWB p c)
+  | None => None
+  end.
+Proof. rewrite gt_extract_next_eq, g_wb_new_eq. cbn [wb_parser wb_capture]. rewrite translated_extract_next_is_model. reflexivity. Qed.
 
 (* the SGR decoder inside the translated csi_dispatch: the style the capture holds afterwards *)
 Theorem translated_csi_dispatch_style cap ps :
